@@ -100,6 +100,7 @@ func (bc *balanceChecker) run() {
 loop:
 	for {
 		withdrawAllNow := false
+		bc.vt("loop", "check", balanceCheckResult != nil, "withdraw", withdrawAllResult != nil)
 
 		select {
 
@@ -151,4 +152,5 @@ loop:
 	cancel()
 
 	bc.log.Debug("shutdown complete")
+	bc.vt("stopped", "check", balanceCheckResult != nil, "withdraw", withdrawAllResult != nil)
 }
